@@ -23,9 +23,11 @@ V_TEXT = ("V (35 values) = {0, 1, -1, 2^31-1, 2^31, -2^31, 2^32, 2^32+1, 2^63-1,
 # alphabets per kind (op/ef) and arity 0..4
 TIERS = {
     "quick": [
-        ("main", dict(op0="full", op1="full", op2="full", op3="s12", op4="s6",
+        # arity 2 = (V minus the 65600-byte string)^2  U  {0,"a",65600-byte string,({1,"a"})}^2 : printing that string in a
+        # "Bad argument" message costs 0.2-0.5 s of CPU under ASan (the driver grows its outbuf one byte at a time)
+        ("main", dict(op0="full", op1="full", op2="nolong", op3="s12", op4="s6",
                       ef0="full", ef1="full", ef2="nolong", ef3="s8", ef4="s6")),
-        ("long2", dict(op0="none", op1="none", op2="none", op3="none", op4="none",
+        ("long2", dict(op0="none", op1="none", op2="l4", op3="none", op4="none",
                        ef0="none", ef1="none", ef2="l4", ef3="none", ef4="none")),
     ],
     "thorough": [
